@@ -123,13 +123,14 @@ def tracked_angles(B, sol, k, base=None):
         if jt["type"] != "revolute":
             continue
         AJ = rot.quat_to_mat(jt["pJ"]) if jt.get("pJ") is not None else np.eye(3)
-        K1, K2 = plan_A(jt["a"]).T @ AJ, plan_A(jt["b"]).T @ AJ
+        ja, jb = (jt["b"], jt["a"]) if jt.get("swap") else (jt["a"], jt["b"])  # (first, second) partner of the joint
+        K1, K2 = plan_A(ja).T @ AJ, plan_A(jb).T @ AJ
         c = jt["axis"]
         a, b = np.roll([0, 1, 2], -c)[1:]
         acc, prev = 0.0, None
         for i in range(0, k + 1):
-            _, A1 = _pose(B, jt["a"], t[i], q[i])
-            _, A2 = _pose(B, jt["b"], t[i], q[i])
+            _, A1 = _pose(B, ja, t[i], q[i])
+            _, A2 = _pose(B, jb, t[i], q[i])
             J1, J2 = A1 @ K1, A2 @ K2
             phi = np.arctan2(J2[:, a] @ J1[:, b], J2[:, a] @ J1[:, a])
             if prev is not None:
